@@ -45,6 +45,12 @@ def gen_structure(rng, max_wires=7, allow_tags=True, fuzz_p=0.3, ground_p=0.4):
         seglens.append(math.dist(nodes[a], nodes[b]) / n)
     tol = min(seglens) * 1e-3
     scale = rng.choice([0.2, 0.5, 0.9, 2.5, 5.0]) if fuzz else 0.0
+    # overall size of the structure (millimetre-wave to long-wave dimensions: the joining rule is relative to the
+    # shortest segment, not an absolute length) and its distance from the origin (the rule is about distances
+    # between ends, not about the size of the coordinates)
+    size = rng.choice([1.0, 1.0, 1.0, 1e-4, 3e-3, 250.0, 1e4])
+    far = rng.choice([0.0, 0.0, 0.0, 3e2, 1e4, 3e5])
+    sh = [far * rng.choice([-1, 1]), far * rng.choice([-1, 0.5]), 0.0 if ground else far * rng.choice([0, 1])]
 
     def P(x):
         p = list(nodes[x])
@@ -53,6 +59,7 @@ def gen_structure(rng, max_wires=7, allow_tags=True, fuzz_p=0.3, ground_p=0.4):
             nrm = math.sqrt(sum(v * v for v in d)) or 1.0
             r = rng.uniform(0.3, 1.0) * scale * tol * 0.5   # two ends perturbed: distance <= scale*tol
             p = [p[k] + d[k] / nrm * r for k in range(3)]
+        p = [(p[k] + sh[k]) * size for k in range(3)]
         return tuple(float(v) for v in p)
     tagmode = rng.choice(['auto', 'auto', 'explicit', 'sparse', 'mixed']) if allow_tags else 'auto'
     ntag = len(wires)
@@ -64,7 +71,7 @@ def gen_structure(rng, max_wires=7, allow_tags=True, fuzz_p=0.3, ground_p=0.4):
         tags = [rng.choice([None, t]) for t in rng.sample(range(1, 3 * ntag + 2), ntag)]
     else:
         tags = [None] * ntag
-    spec = dict(ground=ground, fuzz=fuzz, scale=scale, tagmode=tagmode,
+    spec = dict(ground=ground, fuzz=fuzz, scale=scale, tagmode=tagmode, size=size, far=far,
                 wires=[dict(nseg=n, p0=P(a), p1=P(b), tag=t) for (n, a, b), t in zip(wires, tags)])
     return spec
 
@@ -73,8 +80,9 @@ def build_impl(spec, f=10.0):
     from mininec.mininec import Mininec, Wire, ideal_ground
     ws = []
     for w in spec['wires']:
-        ws.append(Wire(w['nseg'], *w['p0'], *w['p1'], 0.001, tag=w['tag']) if w['tag'] is not None
-                  else Wire(w['nseg'], *w['p0'], *w['p1'], 0.001))
+        r = 0.001 * spec.get('size', 1.0)
+        ws.append(Wire(w['nseg'], *w['p0'], *w['p1'], r, tag=w['tag']) if w['tag'] is not None
+                  else Wire(w['nseg'], *w['p0'], *w['p1'], r))
     return Mininec(f, ws, media=[ideal_ground] if spec['ground'] else None)
 
 
